@@ -236,3 +236,16 @@ func init() {
 		r.Trusted["pinned SHA-256 digests of cmd/zexdoc/zexdoc.cim and zexall.cim in /verif/spec/zex/lemmas.go (taken from the pristine tree)"] = true
 	}
 }
+
+func init() {
+	checks["C18"] = func(ld *Loaded, r *Run) {
+		r.verifyHelpers(ld, func(c *Contract) bool { return ownsProp(c, "C18") || c.Fn.Pkg.Pkg.Path() == modPath })
+		// the real CPU executes the instructions the BIOS consists of exactly as
+		// the reference Step does (the arms of those opcodes, all components)
+		bios := map[uint8]bool{0xc3: true, 0x79: true, 0xfe: true, 0x28: true, 0x76: true, 0x7b: true, 0xd3: true, 0xc9: true, 0x1a: true, 0xc8: true, 0x13: true, 0x18: true, 0xcd: true}
+		r.checkArms(ld, filterEnc(func(e Encoding) bool { return e.Table == "" && bios[e.Op] }), nil, true, true)
+		r.checkLemmas(ld, "C18")
+		r.Assumptions["C18: io.Writer.Write(p) appends all of p to the console stream; (*log.Logger).Printf only logs (stubs)"] = true
+		r.Assumptions["C18: the whole-string statement for BDOS function 9 follows from the per-iteration lemmas by induction over the string length (meta-level); program, string and stack lie outside the BIOS pages 0x0000-0x0007, 0xFE06-0xFE1C, 0xFF03"] = true
+	}
+}
